@@ -623,6 +623,9 @@ class Executor:
             return lift_int(z)
         if ek == "bool":
             return VBool(z != 0)
+        if ecls in ("set", "list", "dict"):
+            # container-valued element (e.g. dict[Block, set[Block]])
+            return VRef(z, ecls, (ecls, "ref") if ecls != "dict" else ("dict", "ref", "ref"))
         r = VRef(z, ecls)
         return r
 
